@@ -125,6 +125,8 @@ def generate(rng: random.Random, tier: str, seed: int) -> dict:
             c["how"] = rng.choice(["block_max_runs", "cli_max_runs", "block_max_runs_0", "cli_max_runs_0", "cli_max_runs_product_minus_1",
                                    "source_grown_since_last_launch", "source_lost_a_column_since_last_launch"])
             c["via_rs_file"] = rng.random() < 0.3       # the run space itself comes from --run-space-file
+            # the same 4-run plan written in each documented way: the cap applies to the plan, however it is assembled
+            c["shape"] = rng.choice(["one_comb", "one_bypos", "two_blocks_comb", "two_blocks_bypos", "comb_blocks_zipped"])
         elif kind == "missing_file":
             c["how"] = rng.choice(["pipeline", "run_space_source", "run_space_file"])
         elif kind == "usage_error":
@@ -324,6 +326,18 @@ def run_case(sc: dict, c: dict, w, stats: dict, idx: int) -> list[dict]:
             return []        # the valid launch did not run as planned (C01/C02 territory): no judgement on the second one
     elif kind == "runspace_over_cap":
         run_space = {"blocks": [{"mode": "combinatorial", "context": {"rs_a": [1.0, 2.0], "rs_b": [1.0, 2.0]}}]}
+        shape = c.get("shape", "one_comb")
+        if shape == "one_bypos":
+            run_space = {"blocks": [{"mode": "by_position", "context": {"rs_a": [1.0, 2.0, 3.0, 4.0], "rs_b": [1.0, 2.0, 3.0, 4.0]}}]}
+        elif shape == "two_blocks_comb":
+            run_space = {"combine": "combinatorial", "blocks": [{"mode": "by_position", "context": {"rs_a": [1.0, 2.0]}},
+                                                                  {"mode": "combinatorial", "context": {"rs_b": [1.0, 2.0]}}]}
+        elif shape == "two_blocks_bypos":
+            run_space = {"combine": "by_position", "blocks": [{"mode": "by_position", "context": {"rs_a": [1.0, 2.0, 3.0, 4.0]}},
+                                                                {"mode": "by_position", "context": {"rs_b": [1.0, 2.0, 3.0, 4.0]}}]}
+        elif shape == "comb_blocks_zipped":
+            run_space = {"combine": "by_position", "blocks": [{"mode": "combinatorial", "context": {"rs_a": [1.0, 2.0], "rs_c": [1.0, 2.0]}},
+                                                                {"mode": "by_position", "context": {"rs_b": [1.0, 2.0, 3.0, 4.0]}}]}
         if c["how"] == "block_max_runs":
             run_space["max_runs"] = 3
         elif c["how"] == "block_max_runs_0":
@@ -334,7 +348,7 @@ def run_case(sc: dict, c: dict, w, stats: dict, idx: int) -> list[dict]:
             argv += ["--run-space-max-runs", "3"]
         else:
             argv += ["--run-space-max-runs", "2"]
-        label = f"runspace_over_cap:{c['how']}"
+        label = f"runspace_over_cap:{c['how']}" + ("" if shape == "one_comb" else f":{shape}")
         expect.update(exec=False, code=3)
     elif kind == "missing_file":
         if c["how"] == "pipeline":
